@@ -538,7 +538,9 @@ impl rustc_driver::Callbacks for Cb {
             let Some(root) = root.as_local() else { return 1 };
             if !matches!(tcx.def_kind(root), DefKind::Fn | DefKind::AssocFn) { return 1; }
             for op in tcx.opaque_types_defined_by(root).iter() {
-                if let rustc_hir::OpaqueTyOrigin::FnReturn { .. } = tcx.local_opaque_ty_origin(op) {
+                // `-> impl Trait` and `async fn` both define an opaque type whose auto traits leak: type-checking a
+                // user that needs `Send` of it (tokio::spawn, .boxed()) borrow-checks the definer and steals its MIR
+                if let rustc_hir::OpaqueTyOrigin::FnReturn { .. } | rustc_hir::OpaqueTyOrigin::AsyncFn { .. } = tcx.local_opaque_ty_origin(op) {
                     return 0;
                 }
             }
